@@ -26,17 +26,19 @@ def traversals(fi, param):
     """List of (slot, line, assigned_back, expr) for visits of ``param.slot``:
     calls of self._visit_* / map_and_filter(self._visit_*, param.slot) in fi."""
     out = []
+    from ..canon import Canon
+    cn = Canon(fi.node)
     for n in own_nodes(fi.node):
         if not isinstance(n, ast.Call):
             continue
-        f = n.func
+        f = cn.expr(n.func)
         slot = None
         if isinstance(f, ast.Attribute) and isinstance(f.value, ast.Name) and f.value.id == "self" and f.attr.startswith("_visit"):
-            for a in n.args:
+            for a in [cn.expr(x) for x in n.args]:
                 if isinstance(a, ast.Attribute) and isinstance(a.value, ast.Name) and a.value.id == param:
                     slot = a.attr
         elif isinstance(f, ast.Name) and f.id in ("map_and_filter", "map", "filter") and len(n.args) == 2:
-            fn, it = n.args
+            fn, it = [cn.expr(x) for x in n.args]
             if isinstance(fn, ast.Attribute) and isinstance(fn.value, ast.Name) and fn.value.id == "self" and fn.attr.startswith("_visit"):
                 if isinstance(it, ast.Attribute) and isinstance(it.value, ast.Name) and it.value.id == param:
                     slot = it.attr
